@@ -594,6 +594,8 @@ class TJPTransformer(Transformer[Any, Any]):
     def effort_value(self, items: list[Any]) -> tuple[str, float]:
         num: float = float(self._get_value(items[0]))
         unit: str = self._get_value(items[1])
+        if num < 0:
+            raise ValueError(f"effort must not be negative: {self._get_value(items[0])}{unit}")
         # Convert to hours (the base unit internally)
         # d=day (8h), w=week (40h), h=hour, m=minute, y=year (2080h)
         multipliers: dict[str, float] = {"d": 8, "w": 40, "h": 1, "m": 1 / 60, "y": 2080, "min": 1 / 60}
